@@ -269,10 +269,10 @@ Lemma apply_field_twice : forall f raw c c1 evs b c2 evs2 b2 gs,
   apply_field E f raw (with_groups c1 gs) = (c2, evs2, b2) -> b2 = false.
 Proof.
   intros f raw c c1 evs b c2 evs2 b2 gs H1 H2. unfold apply_field in *.
-  set (new := nonempty_value (option_map (truncate_value E) (parse_value E (c_fields c) f raw))) in *.
-  assert (Hst : stored new = new) by (unfold new; apply stored_nonempty).
+  set (new := parse_value E (c_fields c) f (truncate (max_field_chars E) raw)) in *.
+  assert (Hst : stored new = new) by (unfold new; apply stored_parse).
   assert (Hfs : c_fields (with_groups c1 gs) = c_fields c1) by (destruct c1; reflexivity). rewrite Hfs in H2.
-  assert (Hsame : nonempty_value (option_map (truncate_value E) (parse_value E (c_fields c1) f raw)) = new
+  assert (Hsame : parse_value E (c_fields c1) f (truncate (max_field_chars E) raw) = new
                   /\ fget f (c_fields c1) = new).
   { destruct (ofvalue_eqb new (fget f (c_fields c))) eqn:Heq; cbn [negb] in H1; inversion H1; subst c1 evs b.
     - apply ofvalue_eqb_eq in Heq. split; [reflexivity | symmetry; exact Heq].
